@@ -187,6 +187,24 @@ def shared_mutable_state(prog, modules=None):
     a local alias (`limits = self._coord_limits; limits["upper"] = ...`).  What such a function returns then depends on the calls made
     before it in the same process.  Returns [(FuncInfo, node, description)]."""
     out = []
+
+    def _bindings(st):
+        if isinstance(st, ast.Assign):
+            return [(t.id, st.value) for t in st.targets if isinstance(t, ast.Name)]
+        if isinstance(st, ast.AnnAssign) and isinstance(st.target, ast.Name) and st.value is not None:
+            return [(st.target.id, st.value)]
+        return []
+    # class-level containers of every class, and whether __init__ gives each instance its own (an unconditional `self.X = ...` at the top level of __init__)
+    class_attrs = {}
+    for cname, ci in prog.classes.items():
+        for cs in ci.node.body:
+            for nm, val in _bindings(cs):
+                if _mutable_literal(val):
+                    init = next((f for f in ci.node.body if isinstance(f, ast.FunctionDef) and f.name == "__init__"), None)
+                    own = init is not None and any(isinstance(st, ast.Assign) and any(isinstance(t, ast.Attribute) and t.attr == nm and isinstance(t.value, ast.Name) and t.value.id == "self" for t in st.targets)
+                                                   for st in init.body)
+                    if not own:
+                        class_attrs.setdefault(cname, {})[nm] = f"class attribute {cname}.{nm} = {norm(val)[:40]}"
     for mname, m in prog.modules.items():
         if modules is not None and not mname.startswith(tuple(modules)):
             continue
@@ -202,15 +220,16 @@ def shared_mutable_state(prog, modules=None):
             for nm, val in bindings(st):
                 if _mutable_literal(val):
                     glob[nm] = f"module-level {nm} = {norm(val)[:40]}"
-            if isinstance(st, ast.ClassDef):
-                for cs in st.body:
-                    for nm, val in bindings(cs):
-                        if _mutable_literal(val):
-                            attrs[nm] = f"class attribute {st.name}.{nm} = {norm(val)[:40]}"
-        if not glob and not attrs:
-            continue
         for fi in prog.functions.values():
             if fi.mod != mname:
+                continue
+            # the class-level containers visible through `self` / `cls` in this method: those of its class and of its base classes (in any module)
+            attrs = {}
+            if fi.cls:
+                for c in prog.mro(fi.cls):
+                    for nm, d in class_attrs.get(c, {}).items():
+                        attrs.setdefault(nm, d)
+            if not glob and not attrs:
                 continue
             assigned = {}
             for n in own_nodes(fi.node):
@@ -238,11 +257,12 @@ def shared_mutable_state(prog, modules=None):
                             if d:
                                 return d + f" (through the local name {e.id})"
                     return None
-                if isinstance(e, ast.Attribute) and e.attr in attrs and isinstance(e.value, ast.Name):
-                    # self.X / cls.X / ClassName.X: the class-level object unless the instance rebinds it (no instance store of X anywhere in the module)
-                    rebinds = any(isinstance(t, ast.Attribute) and t.attr == e.attr for n in ast.walk(m.tree) if isinstance(n, ast.Assign) for t in n.targets)
-                    if not rebinds:
+                if isinstance(e, ast.Attribute) and isinstance(e.value, ast.Name):
+                    # self.X / cls.X: the class-level object (classes whose __init__ always gives the instance its own X are not listed);  ClassName.X likewise
+                    if e.value.id in ("self", "cls") and e.attr in attrs:
                         return attrs[e.attr]
+                    if e.value.id in class_attrs and e.attr in class_attrs[e.value.id]:
+                        return class_attrs[e.value.id][e.attr]
                 return None
             for n in own_nodes(fi.node):
                 tgt = None
